@@ -1,0 +1,15 @@
+//go:build verif
+
+package lru
+
+import "github.com/acquirecloud/golibs/container/iterable"
+
+// VerifListStats returns the list statistics of the cache's underlying ordered
+// map (see iterable.VerifListStats), its length and the number of in-flight
+// creations. It exists only in builds with the `verif` tag.
+func VerifListStats[PK any, K comparable, V any](p *ECache[PK, K, V]) (nodes, deleted, refSum, length, inflight int) {
+	p.lock.Lock()
+	defer p.lock.Unlock()
+	nodes, deleted, refSum = iterable.VerifListStats(p.items)
+	return nodes, deleted, refSum, p.items.Len(), len(p.inflight)
+}
